@@ -118,7 +118,7 @@ func UnitAlphabet(unit string) []string {
 	switch parts[0] {
 	case "tok":
 		return Alphabets[parts[1]]
-	case "bytes":
+	case "bytes", "jbytes":
 		return ByteAlphabets[parts[1]]
 	}
 	return nil
